@@ -2,7 +2,7 @@
    Model: Model/Directive.v (RuntimeState, Directive.effects) and the skip test of Model/RunLoop.v.
    Spec: Spec/Scoping.v (abstract machine over SKIP and the set of unmet REQUIRES). *)
 From XD Require Import Model.Base Model.Parser Model.Checker Model.Text Model.Directive Model.RunLoop
-  Spec.Scoping Proofs.DirectiveProofs Proofs.RunDecide.
+  Spec.Scoping Proofs.DirectiveProofs Proofs.RunDecide Model.DirInline Proofs.FormatProofs Proofs.FormatTrailing Proofs.DirInlineProofs.
 
 (* which statements run, for EVERY sequence of directive lists (block or inline; SKIP, REQUIRES met/unmet
    with any arguments, any other flag), from every well-formed state and for every REQUIRES oracle:
@@ -65,3 +65,41 @@ Example C04_example :
         [[skip true false]; []; [skip false true]; []; [skip false false]; []]
   = [false; false; true; false; true; true].
 Proof. reflexivity. Qed.
+
+(* which directives ARE block and which inline (Model/DirInline.v: Directive.extract's classification, since fix F31): inline
+   iff some line of the statement is neither empty nor a comment ... *)
+Theorem C04_inline_iff_code : forall text,
+  extract_inline text = true <->
+  exists l, In l (splitlines text) /\ blank_line l = false /\ comment_line l = false.
+Proof. exact extract_inline_iff. Qed.
+Print Assumptions C04_inline_iff_code.
+
+(* ... so a statement made of comments and empty lines only (a directive on a prompt line of its own, with any spacing of empty
+   prompt lines around it) gives block directives, and a statement with a line of code gives inline ones *)
+Theorem C04_comment_only_statement_is_block : forall ls,
+  Forall Clean ls -> Forall (fun l => blank_line l = true \/ comment_line l = true) ls ->
+  extract_inline (join_nl ls) = false.
+Proof. exact comment_only_statement_is_block. Qed.
+Print Assumptions C04_comment_only_statement_is_block.
+
+Theorem C04_statement_with_code_is_inline : forall ls l,
+  Forall Clean ls -> In l ls -> blank_line l = false -> comment_line l = false ->
+  extract_inline (join_nl ls) = true.
+Proof. exact statement_with_code_is_inline. Qed.
+Print Assumptions C04_statement_with_code_is_inline.
+
+Theorem C04_block_directive_with_spacing : forall c m n, Clean c -> comment_line c = true ->
+  extract_inline (join_nl (repeat [] m ++ [c] ++ repeat [] n)) = false.
+Proof. exact block_directive_with_spacing. Qed.
+Print Assumptions C04_block_directive_with_spacing.
+
+(* the rule before fix F31 classified '# xdoctest: +SKIP' followed by two empty lines, or preceded by one, as inline (finding F31);
+   the same witnesses show that the hypotheses above are satisfiable *)
+Theorem C04_block_with_spacing_refuted_before_F31 :
+  extract_inline_before_F31 (join_nl [demo_directive_comment; []; []]) = true /\
+  extract_inline_before_F31 (join_nl [[]; demo_directive_comment]) = true /\
+  extract_inline (join_nl [demo_directive_comment; []; []]) = false /\
+  extract_inline (join_nl [[]; demo_directive_comment]) = false /\
+  Clean demo_directive_comment /\ comment_line demo_directive_comment = true.
+Proof. exact block_with_spacing_refuted_before_F31. Qed.
+Print Assumptions C04_block_with_spacing_refuted_before_F31.
